@@ -194,7 +194,7 @@ inline std::string opName(const Op& o)
 
 struct Config
 {
-  int neq, nbfl, nrhs;
+  int neq, nbfl, nrhs, ncck = 1;
   bool dual, allowBayes, allowColCok, allowXvalid;
 };
 
@@ -208,21 +208,28 @@ struct Outcome
   long passed       = 0;  // getters compared and found equal
   double maxRatio   = 0;  // max err/tol over the passing comparisons
   long delivered    = 0;  // passing comparisons where both sides delivered a result
+  bool colcok = false, xvalid = false, bayes = false; // modes of the content at the mismatching getter
+  bool driftRemoved = false;                          // X was given, then removed by setLHS(Sigma, nullptr)
 };
 
 // Replays a history on a new object. Ops that are not applicable in the current state are skipped (so that any
 // sub-sequence of a valid history is a valid history). Compares every getter whose index >= checkFrom and stops at
 // the first mismatch.
-inline Outcome replay(const Config& cf, const std::vector<Op>& ops, int checkFrom, std::string* trace = nullptr)
+inline Outcome replay(const Config& cf, const std::vector<Op>& ops, int checkFrom, std::string* trace = nullptr, bool mark = false)
 {
   Store S;
   Content cur;
   KrigingCalcul K(cf.dual);
   Outcome out;
-  auto tr = [&](const std::string& s) { if (trace && trace->size() < 1200) *trace += (trace->empty() ? "" : ",") + s; };
+  static const bool TRACE = getenv("C10_TRACE") != nullptr;
+  auto tr = [&](const std::string& s) {
+    if (trace && trace->size() < 1200) *trace += (trace->empty() ? "" : ",") + s;
+    if (TRACE) fprintf(stderr, "[kcalc] %s\n", s.c_str());
+  };
   for (int io = 0; io < (int)ops.size(); io++)
   {
     const Op& o = ops[io];
+    if (mark) c10::progress("@" + std::to_string(io) + "\n"); // survives a crash inside this op
     Rng q(o.seed);
     int rc       = 0;
     bool applied = true;
@@ -258,7 +265,8 @@ inline Outcome replay(const Config& cf, const std::vector<Op>& ops, int checkFro
       case SETRHS:
         if (cur.xvalid) { applied = false; break; }
         cur.Sigma0 = S.rect(q, cf.neq, cf.nrhs, -0.6, 0.6);
-        cur.X0     = cf.nbfl > 0 ? S.rect(q, cf.nrhs, cf.nbfl, -1, 1, true) : nullptr;
+        // drift at target only when there is a drift at data (X0 without X is not a consistent input)
+        cur.X0     = (cf.nbfl > 0 && cur.X != nullptr) ? S.rect(q, cf.nrhs, cf.nbfl, -1, 1, true) : nullptr;
         cur.hasRHS = true;
         rc         = K.setRHS(cur.Sigma0, cur.X0);
         break;
@@ -284,7 +292,9 @@ inline Outcome replay(const Config& cf, const std::vector<Op>& ops, int checkFro
         if (o.arg)
         {
           cur.Zp         = S.vec(q, cf.nrhs, -1, 1);
-          cur.rankColCok = S.ranks(q, cf.nrhs, q.irange(1, cf.nrhs - 1));
+          // the NUMBER of collocated variables is constant within a history (a change is probed separately in a child:
+          // see probeColCokCountChange); their ranks and values change
+          cur.rankColCok = S.ranks(q, cf.nrhs, cf.ncck);
           cur.colcok     = true;
           rc             = K.setColCokUnique(cur.Zp, cur.rankColCok);
         }
@@ -306,7 +316,9 @@ inline Outcome replay(const Config& cf, const std::vector<Op>& ops, int checkFro
         if (!cur.Z || !cur.Sigma || !cur.Means) { applied = false; break; }
         int g = o.arg;
         if ((g == 9 || g == 11) && cur.X == nullptr) { applied = false; break; }
+        if (TRACE) fprintf(stderr, "[kcalc] asking %s\n", GETTERS[g]);
         Answer a = ask(K, g);
+        if (mark) c10::progress(std::string(a.ok ? "=ok" : "=fail") + "\n");
         tr(std::string(GETTERS[g]) + (a.ok ? "" : "!"));
         if (io < checkFrom) break;
         KrigingCalcul T(cf.dual);
@@ -327,6 +339,7 @@ inline Outcome replay(const Config& cf, const std::vector<Op>& ops, int checkFro
         double tol = 1e-9 * scale;
         if (!(err <= tol))
         {
+          out.colcok = cur.colcok; out.xvalid = cur.xvalid; out.bayes = cur.bayes; out.driftRemoved = (cur.X == nullptr && cur.everHadX);
           out.index = io; out.err = err; out.tol = tol; out.incOk = a.ok; out.twinOk = b.ok; out.incN = a.v.size(); out.twinN = b.v.size();
           return out;
         }
@@ -346,7 +359,9 @@ inline Outcome replay(const Config& cf, const std::vector<Op>& ops, int checkFro
 }
 
 // delta debugging (ddmin): smallest sub-sequence of ops[0..last) which, followed by ops[last], still mismatches there
-inline std::vector<Op> shrink(const Config& cf, const std::vector<Op>& ops, int last)
+// (the mismatch must stay of the same nature: same "delivered" status on both sides as the original one, so that a
+// stale-value witness does not slip into a failed-request witness while shrinking)
+inline std::vector<Op> shrink(const Config& cf, const std::vector<Op>& ops, int last, bool incOk, bool twinOk)
 {
   std::vector<Op> cur(ops.begin(), ops.begin() + last);
   const Op fin = ops[last];
@@ -354,7 +369,7 @@ inline std::vector<Op> shrink(const Config& cf, const std::vector<Op>& ops, int 
     std::vector<Op> t = v;
     t.push_back(fin);
     Outcome m = replay(cf, t, (int)t.size() - 1);
-    return m.index == (int)t.size() - 1;
+    return m.index == (int)t.size() - 1 && m.incOk == incOk && m.twinOk == twinOk;
   };
   size_t n = 2;
   while (cur.size() >= 2)
@@ -417,6 +432,43 @@ inline void probeXvalidAfterDriftRemoved(Rng& r, Ctx& c)
           ch.ok ? ch.data : ch.why());
 }
 
+// Collocated option: 1 collocated variable, answers asked (Y0p, Lambda0, Stdv are memoised), then 2 collocated
+// variables. A fresh object with the final content is the reference. In a child: a memo kept with the old number of
+// rows is read out of bounds.
+inline void probeColCokCountChange(Rng& r, Ctx& c)
+{
+  uint64_t seed = r.next();
+  c10::Child ch = c10::run_child([&]() -> std::string {
+    Rng q(seed);
+    Store S;
+    int neq = 6, nbfl = 1, nrhs = 3;
+    Content cur;
+    cur.Z = S.vec(q, neq); cur.Means = S.vec(q, nrhs); cur.Sigma = S.spd(q, neq, 1.); cur.X = S.rect(q, neq, nbfl, -1, 1, true);
+    cur.Sigma0 = S.rect(q, neq, nrhs, -0.6, 0.6); cur.X0 = S.rect(q, nrhs, nbfl, -1, 1, true); cur.hasRHS = true;
+    cur.Sigma00 = S.spd(q, nrhs, 2.); cur.hasVar = true;
+    cur.Zp = S.vec(q, nrhs, -1, 1); cur.rankColCok = S.ints({1}); cur.colcok = true;
+    KrigingCalcul K;
+    applyAll(K, cur);
+    (void)ask(K, 1); (void)ask(K, 11); (void)ask(K, 7);
+    cur.rankColCok = S.ints({0, 2});
+    (void)K.setColCokUnique(cur.Zp, cur.rankColCok);
+    std::string res = "OK";
+    for (int g : {11, 7, 0, 1})
+    {
+      Answer a = ask(K, g);
+      KrigingCalcul T;
+      applyAll(T, cur);
+      Answer b  = ask(T, g);
+      bool same = a.ok == b.ok && a.v.size() == b.v.size();
+      if (same) for (size_t i = 0; i < a.v.size(); i++) same = same && std::fabs(a.v[i] - b.v[i]) <= 1e-9 * (1 + std::fabs(b.v[i]));
+      if (!same) { res = std::string("DIFFERENT ") + GETTERS[g]; break; }
+    }
+    return res;
+  });
+  c.truth("kcalc-probe", "C10:incremental:KrigingCalcul:setColCokUnique:changing-number-of-collocated-variables", ch.ok && ch.data == "OK",
+          ch.ok ? ch.data : ch.why());
+}
+
 inline void run(Rng& r, Ctx& c)
 {
   Config cf;
@@ -428,9 +480,11 @@ inline void run(Rng& r, Ctx& c)
   cf.allowBayes  = cf.nbfl > 0 && !cf.dual && r.coin(0.35);
   cf.allowColCok = cf.nrhs >= 2 && !cf.dual && !cf.allowBayes && r.coin(0.5);
   cf.allowXvalid = !cf.allowBayes && !cf.allowColCok && !cf.dual && r.coin(0.35);
+  cf.ncck        = cf.nrhs >= 2 ? r.irange(1, cf.nrhs - 1) : 1;
   c.setSig(fmt("inc:kcalc:nbfl=%d:nrhs=%d:dual=%d:bayes=%d:colcok=%d:xvalid=%d", cf.nbfl > 0, cf.nrhs > 1, cf.dual, cf.allowBayes,
                cf.allowColCok, cf.allowXvalid));
   if (r.coin(0.03)) probeXvalidAfterDriftRemoved(r, c);
+  if (r.coin(0.03)) probeColCokCountChange(r, c);
 
   // ---- history
   std::vector<Op> ops;
@@ -457,31 +511,118 @@ inline void run(Rng& r, Ctx& c)
     ops.push_back({kind, r.next(), arg});
   }
 
-  // ---- run: every getter is compared with its twin; the first mismatches are shrunk and reported
-  std::string trace;
-  Outcome oc = replay(cf, ops, 0, &trace);
-  c.puts("history", trace);
-  c.truth("kcalc-setter", "C10:incremental:KrigingCalcul:valid-setter-refused", oc.setterRefused < 0,
-          oc.setterRefused >= 0 ? opName(ops[oc.setterRefused]) + " in " + trace : "");
-  int reported = 0;
-  for (;;)
+  // ---- run in a child (a stale or half-built memo of the wrong size ends in an out-of-bounds read): every getter is
+  // compared with its twin; the first mismatches are shrunk and reported; oracle evaluations are streamed to the parent
+  auto send = [](const c10::Rec& e) { std::string p = c10::packRecs({e}); p.back() = '\n'; c10::progress("R" + p); };
+  c10::Child ch = c10::run_child([&]() -> std::string {
+    std::string trace;
+    Outcome oc = replay(cf, ops, 0, &trace, true);
+    send({"kcalc-setter", "C10:incremental:KrigingCalcul:valid-setter-refused",
+          oc.setterRefused >= 0 ? opName(ops[oc.setterRefused]) + " in " + trace : "", oc.setterRefused < 0});
+    int reported = 0;
+    for (;;)
+    {
+      if (oc.passed > 0) send({"kcalc-twin", "-", fmt("%ld %ld", oc.passed, oc.delivered), true, oc.maxRatio * 1e-9, 1e-9});
+      if (oc.index < 0 || reported >= 3) break;
+      c10::progress("M" + std::to_string(oc.index) + "\n");
+      std::vector<Op> w = shrink(cf, ops, oc.index, oc.incOk, oc.twinOk);
+      std::string wtrace;
+      Outcome wm = replay(cf, w, (int)w.size() - 1, &wtrace);
+      c10::progress("D\n");
+      // Key = class of the minimal history (the getter and the full minimal history are in the detail):
+      //  * the op before the getter is a getter that FAILED        -> half-built-after-failed:<what was asked>
+      //  * the minimal history gives X then removes it with setLHS(Sigma,nullptr) -> stale-after:setLHS(Sigma,null)-removing-the-drift
+      //  * collocated option switched off, collocated getter still delivers -> stale-after:setColCokUnique(off)
+      //  * otherwise: the last setter of the minimal history (the invalidation edge that did not fire) + the mode
+      std::string key = "C10:incremental:KrigingCalcul:";
+      {
+        size_t lastComma = wtrace.rfind(',');
+        std::string head = lastComma == std::string::npos ? "" : wtrace.substr(0, lastComma);
+        size_t c2        = head.rfind(',');
+        std::string pop  = c2 == std::string::npos ? head : head.substr(c2 + 1);
+        std::string prev = "none";
+        for (int i = (int)w.size() - 2; i >= 0; i--)
+          if (w[i].kind != GETTER) { prev = opName(w[i]); break; }
+        if (!pop.empty() && pop.back() == '!')
+        {
+          std::string fg = pop.substr(0, pop.size() - 1);
+          if (fg == "getStdvMat") fg = "getStdv";                   // same memo
+          if (fg == "getVarianceZstarMat") fg = "getVarianceZstar"; // same memo
+          key += "half-built-after-failed:" + fg;
+        }
+        else if (wm.driftRemoved) key += "stale-after:setLHS(Sigma,null)-removing-the-drift";
+        else if (!wm.colcok && wtrace.find("setColCokUnique(off)") != std::string::npos) key += "stale-after:setColCokUnique(off)";
+        else
+        {
+          key += "stale-after:" + prev;
+          if (wm.colcok) key += ":colcok";
+          if (wm.xvalid) key += ":xvalid";
+          if (wm.bayes) key += ":bayes";
+        }
+      }
+      if (cf.dual) key += ":dual";
+      send({"kcalc-twin", key,
+            std::string(GETTERS[w.back().arg]) + fmt(": delivered incremental=%d fresh=%d, sizes %zu/%zu; minimal history: ", wm.incOk, wm.twinOk, wm.incN, wm.twinN) + wtrace, false,
+            wm.err, wm.tol});
+      reported++;
+      oc = replay(cf, ops, oc.index + 1); // resume the comparisons after the reported getter
+    }
+    return "END " + trace;
+  });
+  // ---- parent: relay the evaluations; attribute a death to the operation that was running
+  int lastOp = -1, prevOp = -1, shrinking = -1;
+  bool prevFailed = false, lastFailed = false;
   {
-    for (long i = 0; i < oc.passed; i++) c.check("kcalc-twin", "-", true, i == 0 ? oc.maxRatio * 1e-9 : 0., 1e-9);
-    for (long i = 0; i < oc.delivered; i++) c.probe("kcalc-delivered");
-    if (oc.index < 0 || reported >= 3) break;
-    std::vector<Op> w = shrink(cf, ops, oc.index);
-    std::string wtrace;
-    Outcome wm = replay(cf, w, (int)w.size() - 1, &wtrace);
-    // guilty edge: last setter of the minimal history -> the getter
-    std::string setter = "none";
-    for (int i = (int)w.size() - 2; i >= 0; i--)
-      if (w[i].kind != GETTER) { setter = opName(w[i]); break; }
-    std::string key = "C10:incremental:KrigingCalcul:" + setter + "->" + GETTERS[w.back().arg];
-    if (cf.dual) key += ":dual";
-    c.check("kcalc-twin", key, false, wm.err, wm.tol,
-            fmt("delivered incremental=%d fresh=%d, sizes %zu/%zu; minimal history: ", wm.incOk, wm.twinOk, wm.incN, wm.twinN) + wtrace);
-    reported++;
-    oc = replay(cf, ops, oc.index + 1); // resume the comparisons after the reported getter
+    size_t p = 0;
+    const std::string& pr = ch.progress;
+    while (p < pr.size())
+    {
+      size_t e = pr.find('\n', p);
+      if (e == std::string::npos) break;
+      std::string line = pr.substr(p, e - p);
+      p = e + 1;
+      if (line.empty()) continue;
+      if (line[0] == '@') { prevOp = lastOp; prevFailed = lastFailed; lastOp = atoi(line.c_str() + 1); lastFailed = false; }
+      else if (line == "=fail") lastFailed = true;
+      else if (line[0] == 'M') shrinking = atoi(line.c_str() + 1);
+      else if (line == "D") shrinking = -1;
+      else if (line[0] == 'R')
+      {
+        for (auto& e2 : c10::unpackRecs(line.substr(1) + "\x1e"))
+        {
+          if (e2.key == "-")
+          {
+            long np = 0, nd = 0;
+            sscanf(e2.detail.c_str(), "%ld %ld", &np, &nd);
+            for (long i = 0; i < np; i++) c.check("kcalc-twin", "-", true, i == 0 ? e2.err : 0., e2.tol);
+            for (long i = 0; i < nd; i++) c.probe("kcalc-delivered");
+          }
+          else c.check(e2.oracle, e2.key, e2.ok, e2.err, e2.tol, e2.detail);
+        }
+      }
+    }
+  }
+  if (ch.ok) c.puts("history", ch.data.substr(0, 600));
+  else
+  {
+    std::string key = "C10:incremental:KrigingCalcul:process-dies:";
+    std::string what;
+    if (shrinking >= 0) { key += "while-shrinking"; what = GETTERS[ops[shrinking].arg]; }
+    else if (lastOp >= 0)
+    {
+      std::string prev = prevOp >= 0 ? opName(ops[prevOp]) : "none";
+      if (prevOp >= 0 && ops[prevOp].kind == GETTER && prevFailed)
+      {
+        if (prev == "getStdvMat") prev = "getStdv";
+        if (prev == "getVarianceZstarMat") prev = "getVarianceZstar";
+        prev = "failed-" + prev;
+      }
+      else if (prevOp >= 0 && ops[prevOp].kind == GETTER) prev = "getter";
+      key += "after-" + prev;
+      what = "in " + opName(ops[lastOp]);
+    }
+    else key += "startup";
+    c.truth("kcalc-survives", key, false, what + ": child " + ch.why());
   }
 }
 } // namespace c10k
